@@ -199,6 +199,24 @@ class Inliner:
         self.counter = 0
         self.caller_names = set()
         self.notes = []
+        # module-level namedtuples: name -> field list
+        self.ntuples = {}
+        for st in tree.body:
+            if isinstance(st, ast.Assign) and len(st.targets) == 1 and \
+                    isinstance(st.targets[0], ast.Name) and isinstance(
+                        st.value, ast.Call) and ast.unparse(
+                            st.value.func) in ('collections.namedtuple',
+                                               'namedtuple') and len(
+                                                   st.value.args) == 2:
+                fl = st.value.args[1]
+                if isinstance(fl, (ast.List, ast.Tuple)) and all(
+                        isinstance(x, ast.Constant) for x in fl.elts):
+                    self.ntuples[st.targets[0].id] = [x.value
+                                                      for x in fl.elts]
+                elif isinstance(fl, ast.Constant) and isinstance(
+                        fl.value, str):
+                    self.ntuples[st.targets[0].id] = fl.value.replace(
+                        ',', ' ').split()
         # module functions and class methods by (class or None, name)
         self.defs = {}
         for st in tree.body:
@@ -324,6 +342,105 @@ class Inliner:
                     x, 'lineno') else None
         return out or [ast.Pass()]
 
+    def fuse(self, h, loop, skip_self):
+        """``for T in g(args): BODY`` with g a new private generator: g's
+        body with every ``yield E`` replaced by ``T = E; BODY``."""
+        env = _bind(h, loop.iter, skip_self)
+        if env is None:
+            return None
+        gbody = [clone(st) for st in _doc_free(h.body)]
+        for st in gbody:
+            for x in ast.walk(st):
+                if isinstance(x, (ast.Return, ast.YieldFrom)):
+                    return None
+                if isinstance(x, ast.Yield) and not isinstance(
+                        getattr(x, '_stmt_ok', None), bool):
+                    pass
+        # yields must be whole statements
+        for st in gbody:
+            for x in ast.walk(st):
+                if isinstance(x, ast.Expr) and isinstance(x.value,
+                                                          ast.Yield):
+                    x.value._as_stmt = True
+        for st in gbody:
+            for x in ast.walk(st):
+                if isinstance(x, ast.Yield) and not getattr(x, '_as_stmt',
+                                                            False):
+                    return None
+        # the consumer body must not break/continue its loop
+        for st in loop.body:
+            for x in ast.walk(st):
+                if isinstance(x, (ast.Break, ast.Continue)):
+                    return None
+        self.counter += 1
+        suffix = f'__inl{self.counter}'
+        assigned = _assigned_names(gbody)
+        ren = {n: n + suffix for n in assigned
+               if n not in env and n in self.caller_names}
+        full = dict(env)
+        full.update(ren)
+        pre = []
+        for pn in [p_ for p_ in env if p_ in assigned
+                   and not isinstance(env[p_], list)]:
+            pre.append(ast.Assign(
+                targets=[ast.Name(id=pn + suffix, ctx=ast.Store())],
+                value=clone(env[pn])))
+            full[pn] = pn + suffix
+        sub = _Subst(full)
+        tgt = loop.target
+        me = self
+
+        def consumer(value):
+            """statements for one yielded value"""
+            body = [clone(b) for b in loop.body]
+            if isinstance(tgt, ast.Name) and isinstance(
+                    value, ast.Call) and isinstance(
+                        value.func, ast.Name) and \
+                    value.func.id in me.ntuples and not value.keywords:
+                fields = me.ntuples[value.func.id]
+                uses = [x for b in body for x in ast.walk(b)
+                        if isinstance(x, ast.Name) and x.id == tgt.id]
+                attrs = [x for b in body for x in ast.walk(b)
+                         if isinstance(x, ast.Attribute) and isinstance(
+                             x.value, ast.Name) and x.value.id == tgt.id
+                         and x.attr in fields]
+                if len(uses) == len(attrs) and len(value.args) == len(
+                        fields):
+                    amap = dict(zip(fields, value.args))
+
+                    class A(ast.NodeTransformer):
+
+                        def visit_Attribute(self, n):
+                            n = self.generic_visit(n)
+                            if isinstance(n.value, ast.Name) and \
+                                    n.value.id == tgt.id and \
+                                    n.attr in amap:
+                                return clone(amap[n.attr])
+                            return n
+
+                    return [A().visit(b) for b in body]
+            return [ast.Assign(targets=[clone(tgt)], value=value)] + body
+
+        class Y(ast.NodeTransformer):
+
+            def visit_FunctionDef(self, n):
+                return n
+
+            def visit_Expr(self, n):
+                if isinstance(n.value, ast.Yield):
+                    v = n.value.value if n.value.value is not None else \
+                        ast.Constant(value=None)
+                    return consumer(v)
+                return n
+
+        out = list(pre)
+        for st in gbody:
+            r = sub.visit(st)
+            for st2 in (r if isinstance(r, list) else [r]):
+                r2 = Y().visit(st2)
+                out.extend(r2 if isinstance(r2, list) else [r2])
+        return out or [ast.Pass()]
+
     def splice_ifchain(self, h, body, env, skip_self, kind, target):
         """Helper whose top-level statements are `if c: ...; return e` arms
         followed by a final return: becomes if/elif/else assigning the
@@ -418,6 +535,7 @@ class Inliner:
                 break
         self.drop_absorbed()
         self.fold_getattr()
+        self.unroll_literal_loops()
         ast.fix_missing_locations(self.tree)
         return self.tree
 
@@ -479,6 +597,94 @@ class Inliner:
                                 if not b:
                                     b.append(ast.Pass())
 
+    def unroll_literal_loops(self):
+        """``for a, b in ((x1, y1), (x2, y2)): body`` over a literal tuple /
+        list (written in place or bound once to a local) of at most eight
+        simple elements is replaced by the bodies in order, a and b
+        substituted - a table-driven loop reads like the statements it
+        stands for."""
+        def simple(e):
+            if isinstance(e, (ast.Constant, ast.Name)):
+                return True
+            if isinstance(e, ast.Attribute):
+                return simple(e.value)
+            if isinstance(e, (ast.Tuple, ast.List)):
+                return all(simple(x) for x in e.elts)
+            return False
+
+        def own_jumps(body):
+            for st in body:
+                for x in ast.walk(st):
+                    if isinstance(x, (ast.Break, ast.Continue)):
+                        # inside a nested loop it belongs to that loop
+                        return True
+            return False
+
+        for f in [x for x in ast.walk(self.tree)
+                  if isinstance(x, ast.FunctionDef)]:
+            consts = {}
+            counts = {}
+            for st in ast.walk(f):
+                if isinstance(st, ast.Assign):
+                    for t in st.targets:
+                        if isinstance(t, ast.Name):
+                            counts[t.id] = counts.get(t.id, 0) + 1
+                            consts[t.id] = st.value
+                elif isinstance(st, (ast.AugAssign, ast.For)):
+                    tg = st.target
+                    for y in ast.walk(tg):
+                        if isinstance(y, ast.Name):
+                            counts[y.id] = counts.get(y.id, 0) + 2
+            for owner in list(ast.walk(f)):
+                for fld in ('body', 'orelse', 'finalbody'):
+                    blk = getattr(owner, fld, None)
+                    if not (isinstance(blk, list) and blk and isinstance(
+                            blk[0], ast.stmt)):
+                        continue
+                    i = 0
+                    while i < len(blk):
+                        st = blk[i]
+                        i += 1
+                        if not isinstance(st, ast.For) or st.orelse:
+                            continue
+                        it = st.iter
+                        if isinstance(it, ast.Name) and counts.get(
+                                it.id) == 1:
+                            it = consts.get(it.id)
+                        if not isinstance(it, (ast.Tuple, ast.List)) or \
+                                not (0 < len(it.elts) <= 8) or \
+                                not all(simple(x) for x in it.elts):
+                            continue
+                        if own_jumps(st.body):
+                            continue
+                        tg = st.target
+                        if isinstance(tg, ast.Name):
+                            names = None
+                        elif isinstance(tg, ast.Tuple) and all(
+                                isinstance(x, ast.Name) for x in tg.elts) \
+                                and all(isinstance(x, (ast.Tuple, ast.List))
+                                        and len(x.elts) == len(tg.elts)
+                                        for x in it.elts):
+                            names = [x.id for x in tg.elts]
+                        else:
+                            continue
+                        # loop variables must not be assigned in the body
+                        bound = _assigned_names(st.body)
+                        tn = {tg.id} if names is None else set(names)
+                        if bound & tn:
+                            continue
+                        new = []
+                        for el in it.elts:
+                            env = {tg.id: el} if names is None else dict(
+                                zip(names, el.elts))
+                            for b_ in st.body:
+                                r = _Subst(env).visit(clone(b_))
+                                new.extend(r if isinstance(r, list) else [r])
+                        blk[i - 1:i] = new
+                        i += len(new) - 1
+                        self.notes.append(f'{f.name}: unrolled loop over a '
+                                          f'{len(it.elts)}-element literal')
+
     def fold_getattr(self):
         """getattr(x, 'name') with a constant identifier is x.name."""
         class G(ast.NodeTransformer):
@@ -536,6 +742,13 @@ class Inliner:
                 h, skip = self.helper_for(call, cls, closures)
                 if h is not None and h is not owner and self.eligible(h):
                     rep = self.splice(h, call, skip, kind, target)
+            if rep is None and isinstance(st, ast.For) and isinstance(
+                    st.iter, ast.Call) and not st.orelse:
+                h, skip = self.helper_for(st.iter, cls, closures)
+                if h is not None and h is not owner and self.eligible(h) \
+                        and _has_yield(h):
+                    rep = self.fuse(h, st, skip)
+                    call = st.iter
             if rep is not None:
                 for x in rep:
                     ast.copy_location(x, st)
